@@ -14,6 +14,7 @@ HELPERS = r'''
     ensures r == (lo <= *x && (if inclusive { *x <= hi } else { *x < hi })) { unimplemented!() }
 pub uninterp spec fn spec_escape_unicode(c: char) -> Seq<char>;
 #[verifier::external_body] pub fn vx_escape_unicode(c: char) -> (r: String) ensures r@ == spec_escape_unicode(c) { unimplemented!() }
+#[verifier::external_body] pub fn vx_str_to_string(s: &str) -> (r: String) ensures r@ == s@ { unimplemented!() }
 pub assume_specification [<char>::is_ascii] (c: &char) -> (r: bool) ensures r == ((*c as u32) < 128);
 '''
 
@@ -146,6 +147,48 @@ impl<'a> RegExpView<'a> {''')
                'cluster.rs::create_ranges_of_repetitions filter closure', props=['C07'],
                requires=['range.start <= range.end', 'prefix_length > 0', '(range.end - range.start) / (prefix_length as int) <= u32::MAX'],
                clauses=[Clause('rep_filter.strict', 'r == (((range.end - range.start) / (prefix_length as int)) > config.minimum_repetitions)', ['C13'])])
+    # ---- C07 (ii): the branch condition of GraphemeCluster::from sends every cluster that must be split into the split branch
+    gf, _, _ = X.fn(cl, 'from', within="^impl<'a> GraphemeCluster<'a> \\{")
+    cond, _, _ = X.if_condition(gf, 'if contains_backslash ||')
+    b.slice_fn('split_branch', 'pub fn split_branch(contains_backslash: bool, contains_combining_mark_or_unassigned_chars: bool) -> (r: bool)', '    ' + cond,
+               'cluster.rs::GraphemeCluster::from condition of the split branch', props=['C07'],
+               clauses=[Clause('cluster_split.branch', 'contains_backslash ==> r', ['C07', 'C01']),
+                        Clause('cluster_split.branch_marks', 'contains_combining_mark_or_unassigned_chars ==> r', ['C07', 'C01'])])
+    # ---- C07 (iii): a grapheme that is a lone backslash is doubled by the escaper
+    gr = b.src('grapheme.rs')
+    ef, _, _ = X.fn(gr, 'escape_regexp_symbols')
+    st, _, _ = X.if_stmt(ef, 'if character == "\\\\"')
+    b.slice_fn('backslash_doubling', 'pub fn backslash_doubling(character0: String) -> (character: String)', '    let mut character = character0;\n    ' + st + '\n    character',
+               'grapheme.rs::escape_regexp_symbols statement `if character == "\\\\" { .. }`', props=['C07'],
+               clauses=[Clause('cluster_split.lone_backslash_doubled', 'character0@ == "\\\\"@ ==> character@ == "\\\\\\\\"@', ['C07', 'C01']),
+                        Clause('cluster_split.others_untouched', 'character0@ != "\\\\"@ ==> character@ == character0@', ['C07', 'C01'])],
+               extra_rules=[('R12', r'\bcharacter == ("(?:[^"\\]|\\.)*")', r'vx_string_eq_lit(&character, \1)', 'PartialEq<str> for String'),
+                            ('R4', r'("(?:[^"\\]|\\.)*")\.to_string\(\)', r'vx_str_to_string(\1)', '&str -> String copy')])
+    # ---- C13 (b): Grapheme::from never creates a quantified grapheme; repetition conversion is gated by the option
+    b.type_item('grapheme.rs', r'^pub struct Grapheme \{')
+    b.emit('impl Grapheme {')
+    b.verified_fn('grapheme.rs', 'from', within=r'^impl Grapheme \{', props=['C07'], fname='Grapheme::from',
+                  clauses=[Clause('grapheme_from.no_quantifier', 'r.min == 1 && r.max == 1 && r.repetitions@.len() == 0', ['C13']),
+                           Clause('grapheme_from.value', 'r.chars@.len() == 1 && r.chars@[0]@ == s@', ['C13', 'C01'])],
+                  extra_rules=[('R4', r'\bs\.to_string\(\)', 'vx_str_to_string(s)', '&str -> String copy')])
+    b.emit('}')
+    gcf, _, _ = X.fn(rx, 'grapheme_clusters')
+    cond, _, _ = X.if_condition(gcf, 'if config.is_repetition_converted')
+    b.slice_fn('rep_gate', 'pub fn rep_gate(config: &RegExpConfig) -> (r: bool)', '    ' + cond, 'regexp.rs::grapheme_clusters condition guarding convert_repetitions', props=['C07'],
+               clauses=[Clause('rep_gate.only_on_request', 'r == config.is_repetition_converted', ['C13'])])
+    b.emit('impl RegExpConfig {')
+    b.verified_fn('config.rs', 'is_char_class_feature_enabled', within=r'^impl RegExpConfig \{', props=['C07'], fname='RegExpConfig::is_char_class_feature_enabled',
+                  clauses=[Clause('class_gate.enabled_when_requested', '(self.is_digit_converted || self.is_non_digit_converted || self.is_space_converted || self.is_non_space_converted || self.is_word_converted || self.is_non_word_converted) ==> r', ['C03'])])
+    b.emit('}')
+    cond2, _, _ = X.if_condition(gcf, 'if config.is_char_class_feature_enabled()')
+    b.slice_fn('class_gate', 'pub fn class_gate(config: &RegExpConfig) -> (r: bool)', '    ' + cond2, 'regexp.rs::grapheme_clusters condition guarding convert_to_char_classes', props=['C07'],
+               clauses=[Clause('class_gate.calls_conversion', '(config.is_digit_converted || config.is_non_digit_converted || config.is_space_converted || config.is_non_space_converted || config.is_word_converted || config.is_non_word_converted) ==> r', ['C03'])])
+    # ---- C13 (c): the guard that skips units shorter than the minimum substring length is the strict comparison
+    rf, _, _ = X.fn(cl, 'replace_graphemes_with_repetitions')
+    cond3, _, _ = X.if_condition(rf, 'if substr.len() <')
+    b.slice_fn('substr_guard', 'pub fn substr_guard(substr: &Vec<String>, config: &RegExpConfig) -> (skip: bool)', '    ' + cond3,
+               'cluster.rs::replace_graphemes_with_repetitions guard of `continue`', props=['C07'],
+               clauses=[Clause('substr_guard.strict', 'skip == (substr@.len() < config.minimum_substring_length)', ['C13'])])
     b.emit('} // verus!\nfn main() {}')
     b.trusted += ['closure plumbing dropped for caseconv / rep_filter (iter().map / filter apply the closure per element)',
                   'Component::to_repr renders the named component and is never empty',
